@@ -29,7 +29,38 @@ type c19Ev struct {
 	nilRet     bool
 }
 
+// removal storm: a long list, every goroutine removes its own share of the names (all goroutines are
+// inside RemoveTarget at the same time, the lock is handed from one to the next) with a few picks in
+// between; aimed at index-based splicing that is not atomic with the search
+func c19GenStorm(r *rand.Rand, tier string) *c19Case {
+	c := &c19Case{Kind: 4, RR: r.Intn(3) != 0, Conc: &c19Conc{}}
+	n := 24 + r.Intn(40)
+	if tier == "thorough" {
+		n = 40 + r.Intn(100)
+	}
+	for i := 0; i < n; i++ {
+		c.Init = append(c.Init, c19Target{fmt.Sprintf("i%d", i), i % 6})
+	}
+	g := 4 + r.Intn(5)
+	keep := r.Intn(4) // names nobody removes
+	scripts := make([][]c19Op, g)
+	nctx := make([]int, g)
+	for _, i := range r.Perm(n)[keep:] {
+		k := i % g
+		scripts[k] = append(scripts[k], c19Op{K: 1, Name: fmt.Sprintf("i%d", i)})
+		if r.Intn(4) == 0 {
+			scripts[k] = append(scripts[k], c19Op{K: 2, Ctx: nctx[k]})
+			nctx[k]++
+		}
+	}
+	c.Conc.Scripts = scripts
+	return c
+}
+
 func c19GenConc(r *rand.Rand, tier string) *c19Case {
+	if r.Intn(2) == 0 {
+		return c19GenStorm(r, tier)
+	}
 	c := &c19Case{Kind: 4, RR: r.Intn(3) != 0, Conc: &c19Conc{}}
 	nInit := r.Intn(4)
 	var names []string
@@ -188,6 +219,27 @@ func c19RunConc(c *c19Case) Result {
 	}
 	for _, nx := range nexts {
 		if nx.nilRet {
+			// nil is only right for an empty list.  A target that was there before the call started
+			// (initial, or its AddTarget had returned) and whose removal — if any — started only after
+			// the call returned was in the list at every moment of the call.
+			var present []string
+			for name := range isInit {
+				present = append(present, name)
+			}
+			for name := range addEv {
+				present = append(present, name)
+			}
+			sort.Strings(present)
+			for _, name := range present {
+				if ad := addEv[name]; !isInit[name] && (ad == nil || !ad.ok || ad.end >= nx.start) {
+					continue
+				}
+				if rm := rmEv[name]; rm != nil && rm.start <= nx.end {
+					continue
+				}
+				fail(fmt.Sprintf("Next returned nil although target %q was in the list during the whole call", name))
+				break
+			}
 			continue
 		}
 		if rm := rmEv[nx.got]; rm != nil && rm.end < nx.start {
